@@ -96,22 +96,107 @@ theorem fileIndex_nonempty (p t a : Nat) (payload : List Nat) (rest : List (Nat 
   | none => exact hs hsp
   | some e => simp [TD.C06.specEntries, List.filterMap_cons, hsp] at this
 
-/-- **the deep test on a written file**: if the pad-option scan returns a reader that refines the abstract semantics
-(as `pad_reader_refines` / `pad_reader_refines_cond` give it) and building the index over the records does not raise,
-`lisTest` answers the layout's code. -/
-theorem lisTest_encode (L : Layout) (rs : List Bytes) (hL : L.Valid) (hr : ∀ r ∈ rs, r ≠ []) (hrs : rs ≠ [])
-    (hbe : L.tif = .be → firstNext L rs ≠ 0x100 ∧ firstNext L rs ≠ 0x10000)
-    (hread : ∃ cfg, bestReaderCfg (encode L rs) lisPrLimit = some cfg ∧
-      run cfg (encode L rs) (some (Rd.new (encode L rs))) ((absOps ((encode L rs).length + 1)).map (concOp L rs))
-        = absRun L rs AState.init (absOps ((encode L rs).length + 1)))
-    (es : List TD.C06.Entry) (hidx : TD.C06.fileIndex (posRecs L rs 0 rs.length) = .ok es) (hes : es ≠ []) :
-    lisTest (encode L rs) = lisCodeOf L.tif := by
-  obtain ⟨cfg, hcfg, hrun⟩ := hread
-  have hcol := absRun_collect L rs hr rs.length 0 none ((encode L rs).length + 1) (by omega) (length_lt_encode L hL rs hr)
-  have hmode := tifInit_mode L hL rs hr (fun _ => hrs) hbe
+/-! ### the two-round loop -/
+
+theorem lisTryOption_code (b : Bytes) (o : Nat × Bool) (r : LisRes) (h : lisTryOption b o = some r) : r = tifCode b := by
+  unfold lisTryOption lisTryOptionE at h
+  split at h
+  · rename_i r' hr
+    split at hr
+    · cases hr; cases h
+    · split at hr
+      · cases hr
+      · split at hr
+        · cases hr; cases h
+        · cases hr; cases h; rfl
+  · cases h
+
+theorem firstSome_eq {α β : Type} (f : α → Option β) (l : List α) (r : β) (h : firstSome f l = some r) :
+    ∃ a ∈ l, f a = some r := by
+  induction l with
+  | nil => cases h
+  | cons a t ih =>
+    unfold firstSome at h
+    split at h
+    · rename_i x hx
+      cases h
+      exact ⟨a, by simp, hx⟩
+    · obtain ⟨a', ha', hf⟩ := ih h
+      exact ⟨a', by simp [ha'], hf⟩
+
+theorem firstSome_isSome {α β : Type} (f : α → Option β) (l : List α) (a : α) (ha : a ∈ l) (r : β) (hf : f a = some r) :
+    ∃ r', firstSome f l = some r' := by
+  induction l with
+  | nil => cases ha
+  | cons x t ih =>
+    unfold firstSome
+    cases hx : f x with
+    | some y => exact ⟨y, rfl⟩
+    | none =>
+      rcases List.mem_cons.mp ha with e | e
+      · rw [e] at hf; rw [hf] at hx; cases hx
+      · exact ih e
+
+/-- **the TIF flavour of the answer does not depend on the pad option that succeeded**: whatever round and option
+returns, the code is the one the first 12 bytes of the file determine -/
+theorem lisRound_code (b : Bytes) (limit : Nat) (r : LisRes) (h : lisRound b limit = some r) : r = tifCode b := by
+  obtain ⟨o, _, ho⟩ := firstSome_eq _ _ r h
+  exact lisTryOption_code b o r ho
+
+/-- for every byte string: the deep test answers nothing, or the code of the file's TIF state -/
+theorem lisTest_flavour (b : Bytes) : lisTest b = .none ∨ lisTest b = tifCode b := by
   unfold lisTest
-  rw [hcfg]
-  simp only []
+  cases h1 : lisRound b lisPrLimit with
+  | some r => right; exact lisRound_code b _ r h1
+  | none =>
+    cases h2 : lisRound b 0 with
+    | some r => right; exact lisRound_code b _ r h2
+    | none => left; rfl
+
+/-- if, in either round, some tried option gives a non-empty index, the answer is the file's TIF code — no matter which
+(earlier) option actually returns -/
+theorem lisTest_of_success (b : Bytes) (limit : Nat) (hl : limit = lisPrLimit ∨ limit = 0) (o : Nat × Bool)
+    (ho : o ∈ lisTried b limit) (r : LisRes) (hs : lisTryOption b o = some r) : lisTest b = tifCode b := by
+  obtain ⟨r', hr'⟩ := firstSome_isSome (lisTryOption b) (lisTried b limit) o ho r hs
+  have hround : lisRound b limit = some r' := hr'
+  unfold lisTest
+  cases h1 : lisRound b lisPrLimit with
+  | some r1 => exact lisRound_code b _ r1 h1
+  | none =>
+    rcases hl with e | e
+    · rw [e] at hround; rw [hround] at h1; cases h1
+    · rw [e] at hround
+      simp only [hround]
+      exact lisRound_code b _ r' hround
+
+/-- when `best_physical_record_pad_settings` would pick `o`, `o` is the first option the round tries -/
+theorem lisTried_head (b : Bytes) (limit : Nat) (o : Nat × Bool) (h : bestPad b limit = some o) :
+    ∃ t, lisTried b limit = o :: t := by
+  unfold bestPad pickBest at h
+  split at h
+  · cases h
+  · rename_i o' t' hm
+    split at h
+    · rename_i hpos
+      cases h
+      unfold lisTried
+      simp only [hm]
+      have : ((List.lookup o (scanAll true b limit)).getD 0 != 0) = true := by
+        simp; omega
+      exact ⟨_, List.takeWhile_cons_of_pos (p := fun o => (List.lookup o (scanAll true b limit)).getD 0 != 0) this⟩
+    · cases h
+
+/-- the true option (no padding) on a written file: the reader refines the abstract semantics, the records are collected
+with their positions, and — when the index over them does not raise — the option succeeds -/
+theorem lisTryOption_encode (L : Layout) (rs : List Bytes) (hL : L.Valid) (hr : ∀ r ∈ rs, r ≠ []) (hrs : rs ≠ [])
+    (hbe : L.tif = .be → firstNext L rs ≠ 0x100 ∧ firstNext L rs ≠ 0x10000)
+    (hsz : fileSize L rs + 24 < 4294967296)
+    (es : List TD.C06.Entry) (hidx : TD.C06.fileIndex (posRecs L rs 0 rs.length) = .ok es) (hes : es ≠ []) :
+    lisTryOption (encode L rs) (0, false) = some (tifCode (encode L rs)) := by
+  have hrun := read_refines ⟨true, 0, false⟩ L rs (absOps ((encode L rs).length + 1)) hL hr (fun _ => hrs) hbe hsz
+    (absOps_histOK _ _)
+  have hcol := absRun_collect L rs hr rs.length 0 none ((encode L rs).length + 1) (by omega) (length_lt_encode L hL rs hr)
+  unfold lisTryOption lisTryOptionE
   rw [← absOps_conc L rs, hrun]
   have hinit : AState.init = ⟨.start 0, none⟩ := rfl
   rw [hinit, hcol]
@@ -121,8 +206,27 @@ theorem lisTest_encode (L : Layout) (rs : List Bytes) (hL : L.Valid) (hr : ∀ r
     | nil => exact absurd rfl hes
     | cons _ _ => rfl
   simp only [hne]
-  obtain ⟨h1, h2⟩ := hmode
+  rfl
+
+theorem tifCode_encode (L : Layout) (rs : List Bytes) (hL : L.Valid) (hr : ∀ r ∈ rs, r ≠ []) (hrs : rs ≠ [])
+    (hbe : L.tif = .be → firstNext L rs ≠ 0x100 ∧ firstNext L rs ≠ 0x10000) :
+    tifCode (encode L rs) = lisCodeOf L.tif := by
+  obtain ⟨h1, h2⟩ := tifInit_mode L hL rs hr (fun _ => hrs) hbe
+  unfold tifCode
   rw [h1, h2]
   cases htif : L.tif <;> simp [lisCodeOf]
+
+/-- **the deep test on a written file**: if in one of the two rounds the pad-option scan has the true option (0, False)
+as its first best option and building the index over the records does not raise, `lisTest` answers the layout's code. -/
+theorem lisTest_encode (L : Layout) (rs : List Bytes) (hL : L.Valid) (hr : ∀ r ∈ rs, r ≠ []) (hrs : rs ≠ [])
+    (hbe : L.tif = .be → firstNext L rs ≠ 0x100 ∧ firstNext L rs ≠ 0x10000)
+    (hsz : fileSize L rs + 24 < 4294967296)
+    (limit : Nat) (hl : limit = lisPrLimit ∨ limit = 0) (hbest : bestPad (encode L rs) limit = some (0, false))
+    (es : List TD.C06.Entry) (hidx : TD.C06.fileIndex (posRecs L rs 0 rs.length) = .ok es) (hes : es ≠ []) :
+    lisTest (encode L rs) = lisCodeOf L.tif := by
+  obtain ⟨t, ht⟩ := lisTried_head _ limit _ hbest
+  have hs := lisTryOption_encode L rs hL hr hrs hbe hsz es hidx hes
+  rw [lisTest_of_success (encode L rs) limit hl (0, false) (by rw [ht]; simp) _ hs]
+  exact tifCode_encode L rs hL hr hrs hbe
 
 end TD.C20
